@@ -158,6 +158,11 @@ def near(rng, x, spread=2):
 def lane_bytes(rng, w, count, mode):
     out = b""
     lo, hi = -(2 ** (8 * w - 1)), 2 ** (8 * w - 1) - 1
+    if mode == "saturate":
+        # every lane the same extreme: makes reductions (dot, sum) accumulate monotonically, the
+        # case in which a fixed-width accumulator overflows although each term fits
+        v = rng.choice([lo, hi, lo, hi, lo + 1, -1])
+        return (v % 2 ** (8 * w)).to_bytes(w, "little") * count
     for _ in range(count):
         r = rng.random()
         if mode == "small" or r < 0.4:
@@ -282,7 +287,9 @@ def targeted(rng, name):
         w = gen_width(rng)
         ww = w if w in (4, 8) else 4
         lanes = rng.choice([0, 1, 2, 3, 5, 9])
-        mode = rng.choice(["small", "edge", "edge"])
+        mode = rng.choice(["small", "edge", "edge", "saturate"])
+        if name == "vector_dot" and mode == "saturate":
+            lanes = rng.choice([2, 3, 4, 5, 9, 33])
         a = lane_bytes(rng, ww, lanes, mode)
         b = lane_bytes(rng, ww, lanes, mode)
         r = rng.random()
@@ -329,7 +336,7 @@ def targeted(rng, name):
         w = gen_width(rng)
         ww = w if w in (4, 8) else 4
         lanes = rng.choice([0, 1, 2, 3, 5, 9, 20])
-        data = lane_bytes(rng, ww, lanes, "edge")
+        data = lane_bytes(rng, ww, lanes, rng.choice(["edge", "edge", "saturate"]))
         if rng.random() < 0.12:
             data += gen_bytes(rng, rng.randint(1, ww - 1))
         return T(B(("bytes", data)), I(w))
